@@ -61,6 +61,7 @@ type handCfg struct {
 	atWager  func(td *TD, hand int, nth int) // called at each wager request before acting (nth = index within the hand)
 	between  func(td *TD, hand int)          // called when hand `hand` has been settled and the table is in standby
 	late     func(td *TD, hand int)          // called in standby once the next hand has been set up (open-game wait)
+	retry    func(td *TD, hand int)          // called once per hand number while tableGameOpen sleeps in its retry loop
 	maxSteps int
 }
 
@@ -73,6 +74,7 @@ type runner struct {
 	wagerN      map[int]int
 	betweenDone map[int]bool
 	lateDone    map[int]bool
+	retryDone   map[int]bool
 }
 
 func (r *runner) check(v *Viol) bool {
@@ -138,6 +140,11 @@ func (r *runner) run() string {
 		if hc.between != nil && t.State.Status == pt.TableStateStatus_TableGameStandby && !r.betweenDone[t.State.GameCount] && t.State.GameCount >= 1 {
 			r.betweenDone[t.State.GameCount] = true
 			hc.between(td, t.State.GameCount)
+			continue
+		}
+		if hc.retry != nil && t.State.GameState == nil && td.env.Sleepers() > 0 && !r.retryDone[t.State.GameCount] {
+			r.retryDone[t.State.GameCount] = true
+			hc.retry(td, t.State.GameCount)
 			continue
 		}
 		if hc.late != nil && t.State.Status == pt.TableStateStatus_TableGameStandby && !r.lateDone[t.State.GameCount] && t.State.GameCount >= 1 {
@@ -244,7 +251,7 @@ func runHandCfg(prefix []int, hc *handCfg, vcfg vrt.Config, mk func(td *TD) []Mo
 				}
 			}
 		}
-		r := &runner{td: td, hc: hc, wagerN: map[int]int{}, betweenDone: map[int]bool{}, lateDone: map[int]bool{}}
+		r := &runner{td: td, hc: hc, wagerN: map[int]int{}, betweenDone: map[int]bool{}, lateDone: map[int]bool{}, retryDone: map[int]bool{}}
 		r.mons = mk(td)
 		td.start()
 		res := r.run()
@@ -327,5 +334,12 @@ func blindNoSB() pt.TableBlindState {
 }
 
 func blindName(b pt.TableBlindState) string {
-	return fmt.Sprintf("a%d-d%d-sb%d-bb%d", b.Ante, b.Dealer, b.SB, b.BB)
+	n := fmt.Sprintf("a%d-d%d-sb%d-bb%d", b.Ante, b.Dealer, b.SB, b.BB)
+	switch {
+	case b.Level == -1:
+		n += "-break"
+	case b.Level == 0:
+		n += "-unset"
+	}
+	return n
 }
